@@ -689,6 +689,15 @@ theorem populationImpacted_le (m : Bool) (pop : Rat) (h : 0 ≤ pop) :
     0 ≤ populationImpacted m pop ∧ populationImpacted m pop ≤ pop := by
   cases m <;> simp [populationImpacted, h]
 
+/-- misc.py:52 "R : float (optional, default = 0.00000876157 m3/s = 200 gallons/day)": the default in the signature is
+the documented number, and that number is 200 gallons/day with the gallon taken as 3.785 l (to 1e-11 m3/s); against the
+exact US gallon (3.785411784 l) it is 1.1e-4 low — an observation, not a defect -/
+theorem population_R_default_documented :
+    Gen.population_R_default = Gen.population_R_doc ∧
+      |Gen.population_R_default - Gen.population_R_doc_gpd * (3785 / 1000000) / 86400| ≤ 1 / 10 ^ 11 ∧
+      |Gen.population_R_default - Gen.population_R_doc_gpd * (3785411784 / 10 ^ 12) / 86400| ≤ Gen.population_R_default * (12 / 10 ^ 5) := by
+  refine ⟨by decide +kernel, ?_, ?_⟩ <;> (rw [← rabs_eq_abs]; decide +kernel)
+
 /-! ### non-vacuity: the generated terms evaluated on concrete tables -/
 
 -- one junction (d = 0.01, h = 50, p = 30), one reservoir feeding 0.01 at 60 m, one pump 0.01 m3/s with a NEGATIVE head
